@@ -49,7 +49,11 @@ def gen_case(rng: Rng, i: int, tier: str):
                     m["content"]["len"] = 150
             if any(m["kind"] == "symlink" for m in c["members"]):
                 continue
-            return {"ref": {"members": c["members"], "layout": c["layout"]}, "open": r.pick(["stream", "path", "anon"]), "rng": r.randrange(1 << 30), "sampled": 400 if tier == "quick" else 3000}
+            if r.chance(0.6):
+                c["layout"]["packcrc"] = True
+            # the block size the library reads and digests packed streams in: every verdict must hold whatever it is
+            return {"ref": {"members": c["members"], "layout": c["layout"]}, "open": r.pick(["stream", "path", "anon"]), "rng": r.randrange(1 << 30), "sampled": 400 if tier == "quick" else 3000,
+                    "block": r.pick([None, 16, 16, 64])}
     fams = gen.COMPRESSORS
     arc = rsess.gen_archive(rng.sub("arc"), tier, maxlen=120, want_dirs=False if r.chance(0.6) else True)
     # stratify the first session's chain over the compressor families and header modes
@@ -148,10 +152,13 @@ def _region(built, off):
     return "header"
 
 
+_BLOCK = [None]  # set per case by run_case
+
+
 def _open(py7zr, img, kind, password):
     fs = SimFS()
     fs.add(rsess.READ_PATH, img)
-    seams = Seams(fs=fs, inline_threads=True)
+    seams = Seams(fs=fs, inline_threads=True, blocksize=_BLOCK[0])
     seams.__enter__()
     try:
         target = rsess.READ_PATH if kind == "path" else SimRaw(fs.get(rsess.READ_PATH), readable=True, anonymous=kind == "anon")
@@ -240,6 +247,7 @@ def run_case(case):
         res["digest"] = digest_of(["skipped"])
         return res
     img = built.image
+    _BLOCK[0] = case.get("block")
     model_map = {m.name: m.data for m in built.model if m.kind != "dir"}
     if "ref" in case:
         chains = [[{"id": f["id"]} for f in fo["chain"]] for fo in case["ref"]["layout"]["folders"]] or [None]
